@@ -653,14 +653,24 @@ func ruleValidate(c *Ctx) {
 		nChecks := 0
 		for _, f := range withClosures(v) {
 			allInstrs(f, func(in ssa.Instruction) {
-				lk, ok := in.(*ssa.Lookup)
-				if !ok || !lk.CommaOk {
+				// an existence check: a comma-ok lookup in one of the two tables, directly or through an accessor method
+				var site ssa.Instruction
+				fld := ""
+				if lk, ok := in.(*ssa.Lookup); ok && lk.CommaOk {
+					if n, _, isField := loadedField(lk.X); isField {
+						fld, site = n, lk
+					}
+				} else if call, ok := in.(*ssa.Call); ok {
+					if callee := staticCallee(&call.Call); callee != nil && c.isRepoFunc(callee) && callee.Pkg == f.Pkg {
+						if n := accessorOfField(callee); n != "" {
+							fld, site = n, call
+						}
+					}
+				}
+				if site == nil || (fld != "attributes" && fld != "chords") {
 					return
 				}
-				fld, _, isField := loadedField(lk.X)
-				if !isField || (fld != "attributes" && fld != "chords") {
-					return
-				}
+				lk := site
 				// only the existence checks outside the cycle walk (that walk is judged by RECUR)
 				if lp := innermostLoop(lk.Block()); lp != nil {
 					// the walk along `extends` links: a loop variable that is replaced by the parent's Extends on every round
@@ -1208,6 +1218,12 @@ func ruleRecur(c *Ctx) {
 		c.site(1)
 		key := "cycle|" + strings.Join(names, ",")
 		why, ok := c.cycleReviewed(names)
+		if !ok && c.cycleFollowsExtends(scc) {
+			// wherever the walk along `extends` links lives and whatever it is called: finite because validate rejects cycles
+			c.ok(key, c.pos(scc[0].Pos()), names[0], "every recursive call is made for the chord's `extends` parent; acyclic because Map.validate rejects cyclic extends and NewMap is the only constructor (checked below)")
+			c.checkExtendsAcyclic()
+			continue
+		}
 		if !ok {
 			c.bad(key, c.pos(scc[0].Pos()), names[0], fmt.Sprintf("recursion cycle %v is not in the reviewed table: if its depth follows a user-supplied number or user-supplied references, a large value or a reference loop overflows the stack (fatal error, not an error message); give it a termination measure in reviewedCycles", names),
 				c.cycleWitness(cg, scc)...)
@@ -1932,4 +1948,58 @@ func dataReaches(v ssa.Value, pred func(ssa.Instruction) bool) bool {
 		return false
 	}
 	return walk(v, 0)
+}
+
+
+// accessorOfField: the function does nothing but return (value, ok) of a comma-ok lookup in a map field of its receiver: the field's name.
+func accessorOfField(fn *ssa.Function) string {
+	rets := returnsOf(fn)
+	if len(rets) != 1 || len(rets[0].Results) != 2 || len(callsIn(fn)) != 0 {
+		return ""
+	}
+	e0, ok0 := retVal(rets[0], 0).(*ssa.Extract)
+	e1, ok1 := retVal(rets[0], 1).(*ssa.Extract)
+	if !ok0 || !ok1 || e0.Tuple != e1.Tuple || e0.Index != 0 || e1.Index != 1 {
+		return ""
+	}
+	lk, ok := e0.Tuple.(*ssa.Lookup)
+	if !ok || !lk.CommaOk {
+		return ""
+	}
+	n, _, isField := loadedField(lk.X)
+	if !isField {
+		return ""
+	}
+	return n
+}
+
+
+// cycleFollowsExtends: every call between the functions of the cycle passes c.Extends or the chord stored under that name.
+func (c *Ctx) cycleFollowsExtends(scc []*ssa.Function) bool {
+	in := map[*ssa.Function]bool{}
+	for _, f := range scc {
+		in[unbound(f)] = true
+	}
+	n := 0
+	for _, f := range scc {
+		for _, ci := range callsIn(f) {
+			callee := staticCallee(ci.Common())
+			if callee == nil || !in[unbound(callee)] {
+				continue
+			}
+			n++
+			okArg := false
+			ac := &affCtx{c: c, fn: f, alias: map[ssa.Value]string{}}
+			for _, a := range ci.Common().Args {
+				d := ac.describe(a)
+				if strings.HasSuffix(d, ".Extends") || (strings.Contains(d, ".chords[") && strings.Contains(d, ".Extends]")) {
+					okArg = true
+				}
+			}
+			if !okArg {
+				return false
+			}
+		}
+	}
+	return n > 0
 }
